@@ -112,6 +112,8 @@ def rule_affine(ctx):
     R = "C08.AFFINE"
     for q, (pp, dp) in sorted(AFFINE_SPEC.items()):
         f = ctx.program.func(q, R)
+        if symeval._resigned(ctx.program, q):
+            continue  # a private helper with a new signature is evaluated inside its callers, which are typed themselves
         for p in pp + dp:
             need(p in f.all_params, R, "%s has no parameter %s" % (q, p))
         s = ctx.S.get(q)
@@ -314,6 +316,8 @@ def rule_orderins(ctx):
     R = "C08.ORDERINS"
     for q, params in ORDER_SPEC:
         f = ctx.program.func(q, R)
+        if symeval._resigned(ctx.program, q):
+            continue
         s = ctx.S.get(q)
         for p in params:
             need(p in f.all_params, R, "%s has no parameter %s" % (q, p))
@@ -430,7 +434,15 @@ def rule_shiftshared(ctx):
             yield o
 
 
+def rule_nonetruth(ctx):
+    """time origin: an optional time bound that is tested by its truth value behaves differently at exactly 0.0"""
+    from . import common as _c
+
+    yield from _c.rule_nonetruth(ctx, "C08.NONETRUTH", ("beat.py", "onset.py", "transcription.py", "multipitch.py", "alignment.py", "pattern.py", "chord.py", "segment.py", "hierarchy.py", "tempo.py", "util.py"))
+
+
 RULES = [
+    ("C08.NONETRUTH", 5, rule_nonetruth),
     ("C08.GENREUSE", 1, rule_genreuse),
     ("C08.SHIFTSHARED", 10, rule_shiftshared),
     ("C08.LABELCANON", 1, rule_labelcanon),
